@@ -4,7 +4,7 @@ from __future__ import annotations
 
 from harness import core  # noqa: F401
 from harness.state_common import (
-    BASE_NAMES, BASE_SPECS, C_GEN, C_INNER, C_INT, C_STR, Ctx, Oracle, canon_sets, exc_name, field, parse_seq, show,
+    BASE_NAMES, BASE_SPECS, C_GEN, C_INNER, C_INT, C_STR, Ctx, Oracle, canon_sets, exc_name, field, parse_case, parse_seq, show,
     universe,
 )
 from harness.state_gen import (
@@ -204,12 +204,12 @@ def corpus():
 
 
 def generate(rng, tier):
-    n = 3600 if tier == "quick" else 16 * 25000
+    n = 12000 if tier == "quick" else 16 * 20000
     for _ in range(n):
         yield gen_case(rng)
     if tier == "thorough":   # every annotation constructor at the root, small terms
         for d in (0, 1, 2):
-            for _ in range(4000):
+            for _ in range(3000):
                 yield gen_case(rng, want_depth=d)
 
 
@@ -236,8 +236,8 @@ def canon(case: str, out: str) -> str:
 
 
 def expectation(case: str):
-    """independent oracle: per attribute (name, root kind, conforms?, converted value text)"""
-    top = parse_seq(case)
+    """independent oracle: per attribute (name, blamed term kind if not conforming, conforms?, converted value text)"""
+    top = parse_case(case)
     spec = field(top, "class")
     orc = Oracle(top, int(spec[0]))
     env = {n: t for n, t in field(spec, "tp")}
@@ -247,9 +247,9 @@ def expectation(case: str):
         v = kwargs.get(name, "M")
         if v == "M":
             v = dflt if dflt != "-" else "M"
+        orc.blame = None
         ok, conv = orc.walk(ty, v, env)
-        kind = ty if isinstance(ty, str) else ty[0]
-        res.append((name, kind, ok, show(canon_sets(conv)) if ok else None))
+        res.append((name, orc.blame, ok, show(canon_sets(conv)) if ok else None))
     return res
 
 
@@ -260,9 +260,8 @@ def monitor(case: str, out: str) -> list[str]:
     except Exception as exc:  # noqa: BLE001
         return [f"validate.oracle-error.{type(exc).__name__}"]
     if out.startswith("ok"):
-        bad = [k for _, k, ok, _ in exp if not ok]
-        if bad:
-            return [f"validate.accepted-nonconforming.{bad[0]}"]
+        if not all(ok for _, _, ok, _ in exp):
+            return ["validate.accepted-nonconforming"]
         try:
             got = {f[0]: show(canon_sets(f[1])) for f in parse_seq(out[2:])}
         except Exception:  # noqa: BLE001
@@ -270,14 +269,13 @@ def monitor(case: str, out: str) -> list[str]:
         fails = []
         if list(got) != [n for n, *_ in exp]:
             fails.append("validate.stored-unfaithful.attributes")
-        for name, kind, _, conv in exp:
+        for name, _, _, conv in exp:
             if name in got and got[name] != conv:
-                fails.append(f"validate.stored-unfaithful.{kind}")
+                fails.append("validate.stored-unfaithful")
         return sorted(set(fails))
     if out.startswith("err "):
         if all(ok for _, _, ok, _ in exp):
-            kinds = sorted({k for _, k, _, _ in exp})
-            return [f"validate.rejected-conforming.{kinds[0]}"]
+            return ["validate.rejected-conforming"]
         return []
     if out.startswith("classerr"):
         return ["validate.class-creation-failed"]
@@ -289,7 +287,7 @@ def _nodes(v) -> int:
 
 
 def nontrivial(case: str, out: str) -> bool:
-    top = parse_seq(case)
+    top = parse_case(case)
     kwargs = {n: v for n, v in field(top, "kwargs")}
     return any(depth_of(ty) >= 1 and _nodes(kwargs.get(n, "M")) >= 2 for n, ty, _ in field(field(top, "class"), "attrs"))
 
@@ -301,7 +299,7 @@ GROUP = {**{c: "builtin-scalar" for c in (2, 3, 4, 5, 6)}, **{c: "uuid/date-time
 
 
 def classify(case: str, out: str):
-    top = parse_seq(case)
+    top = parse_case(case)
     yield "out:accepted" if out.startswith("ok") else "out:rejected" if out.startswith("err") else "out:other"
     spec = field(top, "class")
     seen: set = set()
@@ -309,9 +307,7 @@ def classify(case: str, out: str):
         vocab(ty, seen)
     for a in field(top, "aliases"):
         vocab(a[2], seen)
-    for k in seen:
-        if k.startswith("cls:"):
-            k = GROUP.get(int(k[4:]), "other-class")
+    for k in {GROUP.get(int(k[4:]), "other-class") if k.startswith("cls:") else k for k in seen}:
         yield f"k:{k}"
     if field(spec, "params"):
         yield "k:generic-class" + ("-specialised" if field(spec, "tp") else "")
